@@ -5,7 +5,7 @@ set -u
 PATCH="$(readlink -f "$1")"; tier="$2"; shift 2
 ROOT="$(cd "$(dirname "${BASH_SOURCE[0]}")/.." && pwd)"
 if [ -n "$(git -C /repo status --porcelain --untracked-files=no)" ]; then echo "refusing: /repo has uncommitted changes"; exit 2; fi
-restore() { git -C /repo checkout -q -- . ; }
+restore() { git -C /repo checkout -q -- . ; git -C "$ROOT" checkout -q -- evidence 2>/dev/null; }
 trap restore EXIT
 git -C /repo apply "$PATCH" || { echo "patch does not apply"; exit 2; }
 for id in "$@"; do
